@@ -3,17 +3,17 @@
 // run: ./check C14 --replay replays/C14/rand.c14_reach_i32.rs
 /// Test generated for harness `rand::c14_reach_i32` 
 ///
-/// Check for `cover`: "cover condition: incl && v == e && s == < i32 > :: MIN"
+/// Check for `assertion`: ""every value of the range is produced by some raw output""
 
 #[test]
-fn kani_concrete_playback_c14_reach_i32_15086436577846834444() {
+fn kani_concrete_playback_c14_reach_i32_17069989019218705646() {
     let concrete_vals: Vec<Vec<u8>> = vec![
         // -2147483648
         vec![0, 0, 0, 128],
         // 2147483647
         vec![255, 255, 255, 127],
-        // 2147483647
-        vec![255, 255, 255, 127],
+        // -2147483648
+        vec![0, 0, 0, 128],
         // 1
         vec![1],
     ];
